@@ -21,6 +21,7 @@ structure CaseMap (env : CharEnv) (φ : Char → Char) : Prop where
   eqc : ∀ x ∈ ['0', '1', '2', '3', '+', '-', '.', '\'', ':'], ∀ c, φ c = x ↔ c = x
   durUp : ∀ c, durUpper (φ c) = durUpper c
   up : ∀ c, asciiUpper (φ c) = asciiUpper c
+  low : ∀ c, asciiLower (φ c) = asciiLower c
 
 variable {env : CharEnv} {φ : Char → Char}
 
